@@ -9,7 +9,7 @@ THEOREMS = [
     "XcmModel.C04.C04_connect_phase_watched", "XcmModel.C04.msgBsend_returns", "XcmModel.C04.socketFinish_returns",
     "XcmModel.C04.C04_blocking_send_returns", "XcmModel.C04.C04_nonblocking_single_call",
     "XcmModel.C16.C16_readable_when_met", "XcmModel.C16.C16_active_fd_iff_bell",
-    "XcmModel.C04btls.C04_btls_handshake_watched", "XcmModel.C04btls.C04_btls_waiter_has_source", "XcmModel.C04btls.C04_btls_terminal_rings", "XcmModel.C04btls.C04_btls_pending_rings",
+    "XcmModel.C04btls.C04_btls_handshake_watched", "XcmModel.C04btls.C04_btls_waiter_has_source", "XcmModel.C04btls.C04_btls_terminal_rings", "XcmModel.C04btls.C04_btls_pending_rings", "XcmModel.C04btls.C04_btls_retained_output_watched",
     "XcmModel.C04tp.C04_registrations_refreshed", "XcmModel.C04tp.C04_new_sockets_registered",
 ]
 
@@ -29,6 +29,7 @@ def run(ctx):
                 "send()/recv() below XCM (and below OpenSSL's BIO) return EAGAIN or short counts in 0/30/60 per cent of the calls "
                 "(seeded); a watchdog reports a stall when work is owed and no fd has been readable for 4 s; the blocking forms "
                 "(xcm_connect, xcm_accept, xcm_send, xcm_receive) run in threads under the same faults with a join timeout. "
+                "sys_quiet RONLY: after xcm_send reported EAGAIN the sender only awaits RECEIVABLE and answers wake-ups with xcm_receive; everything accepted must reach the reading peer. "
                 "unit_api/unit_framing: the update/flush model lines of C02/C03/C16 are re-run. distinct = (transport, fault rate, outcome)")
     # model ties that C04's theorems rest on (cheap re-runs)
     aexe = api.build()
@@ -96,6 +97,28 @@ def run(ctx):
             ctx.violation("sys_loop:crash:" + common.crash_site(err), "sys_loop died at %r" % cmds[min(len(out), len(cmds) - 1)],
                           {"harness": "sys_loop", "ops": [cmds[min(len(out), len(cmds) - 1)]], "stderr": err[-3000:]})
     ctx.sample({"harness": "sys_loop", "cmds": cmds[:3], "impl_out": out[:3]}, cap=8)
+    # an application that, after back-pressure, only ever receives: accepted output must still get out
+    from gen.props import C16 as _c16
+    qexe = _c16.build_quiet()
+    qcmds = ["RONLY " + p for p in sysattr.PROTOS] * (1 if quick else 4)
+    rc, qout, err = sysattr.run(qexe, qcmds, ctx, timeout=600)
+    ctx.traces += 1
+    for c, o in zip(qcmds, qout):
+        ctx.evaluations += 1
+        rep = {"harness": "sys_quiet", "ops": [c], "impl_out": o}
+        if o.startswith("fail") or "refused=" not in o:
+            ctx.corr_break("sys_quiet", "%s: %s" % (c, o), rep)
+            continue
+        f = dict(x.split("=") for x in o.split())
+        ctx.nontriv((c, f["refused"], f["accepted"] == f["delivered"]))
+        ctx.count("ronly." + c.split()[1])
+        if f["refused"] == "1" and f["rerr"] == "0" and f["accepted"] != f["delivered"]:
+            ctx.violation("sys_quiet:monitor:accepted-output-stuck:receive-only:%s" % c.split()[1],
+                          "output that xcm_send accepted was never delivered although the sender followed the fd protocol (awaiting RECEIVABLE, "
+                          "answering every wake-up with xcm_receive) and the peer read for 4 s: %s" % o, rep)
+    if rc != 0 and len(qout) < len(qcmds):
+        ctx.violation("sys_quiet:crash:" + common.crash_site(err), "sys_quiet died at %r" % qcmds[min(len(qout), len(qcmds) - 1)],
+                      {"harness": "sys_quiet", "ops": [qcmds[min(len(qout), len(qcmds) - 1)]], "stderr": err[-3000:]})
     ctx.assumptions += ["K-epoll and K-progress: a socket reported writable accepts at least one byte; bytes in flight become readable",
                         "the injected faults are EAGAIN and short counts only (what a kernel may answer); resets are C06's subject",
                         "real-time bounds are measured (watchdog 4 s), not proved"]
@@ -132,6 +155,9 @@ def replay(path):
     if r.get("harness") == "unit_btls":
         from gen import btls as _btls
         return _btls.replay(r)
+    if r.get("harness") == "sys_quiet":
+        from gen.props.C16 import replay as r16
+        return r16(path)
     if r.get("harness") == "sys_loop":
         class C:
             rundir = common.RUN + "/replay"
